@@ -43,9 +43,10 @@ VARIABLES
     lock,     \* [Voter -> Int] restake lock under the vault "feeds" (NoLock = never voted)
     feeds,    \* set of [s, p, iv]: the current feeds
     lastUpd,  \* height of the last recomputation of the current feeds
+    fpar,     \* (ghost) the parameters in force at that recomputation
     out       \* outcome of the last step
 
-vars == <<h, par, power, vote, total, idx, lock, feeds, lastUpd, out>>
+vars == <<h, par, power, vote, total, idx, lock, feeds, lastUpd, fpar, out>>
 
 RECURSIVE SumF(_, _)
 SumF(f, S) == IF S = {} THEN 0 ELSE LET x == CHOOSE y \in S : TRUE IN f[x] + SumF(f, S \ {x})
@@ -65,10 +66,10 @@ Init ==
     /\ idx = {}
     /\ lock = [v \in Voter |-> NoLock]
     /\ feeds = {}
-    /\ lastUpd = 0
+    /\ lastUpd = 0 /\ fpar = par
     /\ out = "init"
 
-Rejected == out' = "rej" /\ UNCHANGED <<h, par, power, vote, total, idx, lock, feeds, lastUpd>>
+Rejected == out' = "rej" /\ UNCHANGED <<h, par, power, vote, total, idx, lock, feeds, lastUpd, fpar>>
 
 (***************************************************************************)
 (* MsgVote(v, sv): sv is the list of (signal, power) as sent; shape "ok"   *)
@@ -102,7 +103,7 @@ Vote(v, sv, shape) ==
             /\ idx' = (idx \ {[s |-> s, p |-> total[s]] : s \in touched})
                          \cup {[s |-> s, p |-> tot2[s]] : s \in {x \in touched : tot2[x] # 0}}
             /\ out' = "ok"
-            /\ UNCHANGED <<h, par, power, feeds, lastUpd>>
+            /\ UNCHANGED <<h, par, power, feeds, lastUpd, fpar>>
     ELSE Rejected
 
 (***************************************************************************)
@@ -116,7 +117,8 @@ TopSel(F) ==
     /\ F \subseteq Eligible
     /\ Cardinality(F) = Min2(par.maxFeeds, Cardinality(Eligible))
     /\ \A s \in F, t \in Eligible \ F : total[s] >= total[t]
-Interval(p) == Max2(par.maxI \div (p \div par.step), par.minI)
+IntervalP(pp, p) == Max2(pp.maxI \div (p \div pp.step), pp.minI)
+Interval(p) == IntervalP(par, p)
 FeedOf(s) == [s |-> s, p |-> total[s], iv |-> Interval(total[s])]
 
 IsUpdate == h % par.upd = 0
@@ -125,9 +127,9 @@ EndBlock(F) ==
     /\ IF IsUpdate
        THEN /\ TopSel(F)
             /\ feeds' = {FeedOf(s) : s \in F}
-            /\ lastUpd' = h
+            /\ lastUpd' = h /\ fpar' = par
        ELSE /\ F = {}
-            /\ UNCHANGED <<feeds, lastUpd>>
+            /\ UNCHANGED <<feeds, lastUpd, fpar>>
     /\ h' = h + 1
     /\ out' = "ok"
     /\ UNCHANGED <<par, power, vote, total, idx, lock>>
@@ -135,13 +137,23 @@ EndBlock(F) ==
 SetPower(v, p) ==
     /\ power' = [power EXCEPT ![v] = p]
     /\ out' = "ok"
-    /\ UNCHANGED <<h, par, vote, total, idx, lock, feeds, lastUpd>>
+    /\ UNCHANGED <<h, par, vote, total, idx, lock, feeds, lastUpd, fpar>>
+
+\* environment: governance changes the feeds parameters (MsgUpdateParams).  Nothing stored changes: the current feeds
+\* keep the intervals they were given until the next recomputation, which uses the parameters in force THEN for every
+\* feed (also for a feed whose power did not change).
+SetPar(p) ==
+    /\ p # par
+    /\ par' = p
+    /\ out' = "ok"
+    /\ UNCHANGED <<h, power, vote, total, idx, lock, feeds, lastUpd, fpar>>
 
 Next ==
     \/ \E v \in Voter, sv \in VoteSet : Vote(v, sv, "ok")
     \/ \E v \in Voter : Vote(v, <<>>, "emptyId")
     \/ \E F \in SUBSET Signal : EndBlock(F)
     \/ \E v \in Voter, p \in PowerSet : SetPower(v, p)
+    \/ \E p \in ParSet : SetPar(p)
 
 Spec == Init /\ [][Next]_vars
 
@@ -163,10 +175,10 @@ IdxSound == idx = {[s |-> s, p |-> total[s]] : s \in {x \in Signal : total[x] # 
 \* the standing vote is locked under the feeds vault
 LockSound == \A v \in Voter : IF lock[v] = NoLock THEN vote[v] = NoVote ELSE lock[v] = SumVote(vote[v])
 
-\* the current feeds are well formed w.r.t. the parameters (constant during a history)
+\* the current feeds are well formed w.r.t. the parameters in force when they were computed
 FeedsSound ==
-    /\ Cardinality(feeds) <= par.maxFeeds
-    /\ \A f \in feeds : f.s \in Signal /\ f.p >= par.step /\ f.iv = Interval(f.p) /\ f.iv >= par.minI
+    /\ Cardinality(feeds) <= fpar.maxFeeds
+    /\ \A f \in feeds : f.s \in Signal /\ f.p >= fpar.step /\ f.iv = IntervalP(fpar, f.p) /\ f.iv >= fpar.minI
     /\ \A f, g \in feeds : f.s = g.s => f = g
     /\ lastUpd < h
 
